@@ -1,6 +1,6 @@
 """C03 -- posterior rows are faithful (point, log-likelihood, blob) triples, once each."""
 from ..sampler_rules import rule_L1_sampler, rule_L2_move, rule_L3_L4, rule_L5
-from ..shape import rule_S1
+from ..shape import rule_S1, rule_V1
 from ..effects import rule_F5, rule_F7
 from ..agree import rule_A5
 from ..persist import rule_P4_sampler, rule_P1_P2
@@ -17,6 +17,7 @@ def run(ctx):
     rule_L5(ctx)
     rule_S1(ctx, ['Sampler.evaluate_likelihood', 'Sampler.add_samples', 'Sampler.sample_shell',
                   'Sampler.posterior'])
+    rule_V1(ctx)
     rule_F5(ctx)
     rule_F7(ctx)
     rule_A5(ctx)        # each evaluated / transferred point is used at most once
